@@ -22,8 +22,11 @@ def calls_path(body, needle):
 
 
 def is_clock_reader(body):
-    """a body that directly calls libc::clock_gettime"""
-    return calls_path(body, 'libc::clock_gettime')
+    """a body that directly calls libc's clock_gettime"""
+    for _, t, fn in body.calls():
+        if fn and fn.get('crate') == 'libc' and fn.get('name') == 'clock_gettime':
+            return True
+    return False
 
 
 def mk_engine(fb, inline_depth=6, no_inline=None, **kw):
